@@ -22,7 +22,7 @@ SPEC = {
              "never a complete ${...}. The description is rendered to x.hcl with hclwrite (block types in a drawn order; bodies / "
              "payloads optionally as heredocs) and to x.yaml with yaml.v2 (ordered maps; empty sections optionally written as []). "
              "TestLocals additionally writes 1-3 `locals` blocks (later ones refer to earlier ones; a local may be re-declared with "
-             "the same value) and ~40% of the map / list / string attributes as expressions (depth <= 3) over local.* references, the 17 "
+             "the same value, or given a new value by a later block, also one built from its old value) and ~40% of the map / list / string attributes as expressions (depth <= 3) over local.* references, the 17 "
              "documented functions and quoted templates with ${} interpolation, built so that the documented preconditions hold "
              "(element on a non-empty list, slice within bounds, zipmap with equally long lists, index of a present item, split with "
              "a non-empty separator); the YAML file holds the value scengen's own evaluator computes; 60% of the scenario `requests` "
@@ -53,7 +53,7 @@ SPEC = {
         "TestLocals/fn_lookup": 0.05, "TestLocals/fn_merge": 0.1, "TestLocals/fn_reverse": 0.05, "TestLocals/fn_slice": 0.05,
         "TestLocals/fn_sort": 0.03, "TestLocals/fn_split": 0.05, "TestLocals/fn_values": 0.05, "TestLocals/fn_zipmap": 0.05,
         "TestLocals/local_refers_to_earlier_block": 0.2, "TestLocals/attr_refers_to_local": 0.3,
-        "TestLocals/template_interpolation": 0.1, "TestLocals/local_redeclared": 0.03,
+        "TestLocals/template_interpolation": 0.1, "TestLocals/local_redeclared": 0.03, "TestLocals/local_overridden_by_later_block": 0.05,
         "TestLocals/locals_blocks_2": 0.15, "TestLocals/locals_blocks_3": 0.15,
     },
     "manifest": {
@@ -78,6 +78,8 @@ SPEC = {
                  "`locals` helper block and HCL comment / CRLF layouts are not implemented."),
     },
     "assumptions": [
+        "locals blocks are evaluated in file order and a name assigned again by a later block means the later value from then on (the documentation only shows re-declaration with the same value)",
+        "all cases of a process rewrite the same file names: a front-end may not remember anything by file name",
         "strings are NFC-normalised: HCL normalises string values to NFC by specification, so other strings are not expressible in both syntaxes",
         "complete ${...} sequences are not generated (placeholder language of the config layer, property C17)",
         "the documented semantics of the HCL functions are those of the pages docs/eng/scenario/functions.md links to",
